@@ -136,7 +136,7 @@ Definition store (st : option stats) (bessel : bool) : result (list Q * list Q) 
   | Some s =>
       if Qle_bool 2 (cnt s) then
         let mean := map (fun v => v / cnt s) (ssum s) in
-        let var := zipw (fun q m => q / cnt s - qsq m) (ssq s) mean in
+        let var := zipw (fun q m => qmax (q / cnt s - qsq m) 0) (ssq s) mean in   (* clamp_min_(0) *)
         let var := if bessel then map (fun v => v * (cnt s / (cnt s - 1))) var else var in
         Ok (mean, var)
       else Err ERuntime
@@ -429,14 +429,15 @@ Definition res_match {A B} (f : A -> B -> bool) (a : result A) (b : result B) : 
 (* accumulate over chunks (exact: dyadic data), then store.
    impl_stats = (count, sum, sumsq) read from the module's buffers before store;
    impl_ms = (mean, std) after store, compared as mean ~ mean, std^2 ~ var. *)
-Definition stats_eqb (s : option stats) (c : Q) (sm sq : list Q) : bool :=
+(* tola = 0 demands equality (data on the dyadic grid, where the float sums are exact) *)
+Definition stats_eqb (tola : Q) (s : option stats) (c : Q) (sm sq : list Q) : bool :=
   match s with
   | None => false
-  | Some s => Qeq_bool (cnt s) c && all2 Qeq_bool (ssum s) sm && all2 Qeq_bool (ssq s) sq
+  | Some s => Qeq_bool (cnt s) c && all2 (qclose tola) (ssum s) sm && all2 (qclose tola) (ssq s) sq
   end.
 
 Definition check_acc (dim : Z) (xs : list tensor) (impl : result (Q * list Q * list Q)) : bool :=
-  res_match (fun s i => let '(c, sm, sq) := i in stats_eqb s c sm sq) (accumulate_all dim None xs) impl.
+  res_match (fun s i => let '(c, sm, sq) := i in stats_eqb 0 s c sm sq) (accumulate_all dim None xs) impl.
 
 Definition check_store (dim : Z) (xs : list tensor) (bessel : bool) (tol : Q)
   (impl : result (list Q * list Q)) : bool :=
@@ -445,22 +446,22 @@ Definition check_store (dim : Z) (xs : list tensor) (bessel : bool) (tol : Q)
             (bind (accumulate_all dim None xs) (fun s => store s bessel)) impl.
 
 
-Definition ostats_eqb (s : option stats) (i : option (Q * list Q * list Q)) : bool :=
+Definition ostats_eqb (tola : Q) (s : option stats) (i : option (Q * list Q * list Q)) : bool :=
   match s, i with
   | None, None => true
-  | Some _, Some (c, sm, sq) => stats_eqb s c sm sq
+  | Some _, Some (c, sm, sq) => stats_eqb tola s c sm sq
   | _, _ => false
   end.
 
 Definition store_close (tol : Q) (mv i : list Q * list Q) : bool :=
   all2 (qclose tol) (fst mv) (fst i) && all2 (qclose tol) (snd mv) (map qsq (snd i)).
 
-(* a whole history: every store result (mean ~ mean, std^2 ~ var) and the final buffers (exact) *)
-Definition check_ops (dim : Z) (ops : list op) (tol : Q)
+(* a whole history: every store result (mean ~ mean, std^2 ~ var) and the final buffers (within tola) *)
+Definition check_ops (dim : Z) (ops : list op) (tol tola : Q)
   (impl_stores : list (result (list Q * list Q)))
   (impl_final : result (option (Q * list Q * list Q))) : bool :=
   let '(stores, final) := run_ops dim None ops [] in
-  all2 (res_match (store_close tol)) stores impl_stores && res_match ostats_eqb final impl_final.
+  all2 (res_match (store_close tol)) stores impl_stores && res_match (ostats_eqb tola) final impl_final.
 
 (* forward; [sigma] = torch's own std when std is None; audited against the own variance *)
 Definition check_norm (x : tensor) (dim : Z) (mean std : option (list Q)) (eps : Q) (sigma : list Q)
